@@ -2,6 +2,7 @@ import AcraModel.CrossClient.Reveal
 import AcraModel.CrossClient.Hash
 import AcraModel.CrossClient.Context
 import AcraModel.CrossClient.Token
+import AcraModel.CrossClient.TokenColumn
 import AcraModel.CrossClient.Tls
 import AcraModel.CrossClient.Keys
 import AcraModel.CrossClient.TlsIdentity
@@ -168,8 +169,59 @@ def idOut : Out Bytes → String
   | .err => "err"
   | .panic => "panic"
 
+/-- `ncols (name cid ty consistent)×ncols`; `ty = 0`: the column is listed but has no encryption setting -/
+def parseCols : Nat → List String → Option (List (String × Option ColSetting) × List String)
+  | 0, rest => some ([], rest)
+  | n + 1, name :: cid :: ty :: cons :: rest => do
+    let ty ← ty.toNat?
+    let cid ← ofHex cid
+    let cs : Option ColSetting := if ty = 0 then none else some ⟨cid, true, cons == "1", ty⟩
+    let (cols, rest') ← parseCols n rest
+    pure ((name, cs) :: cols, rest')
+  | _, _ => none
+
+def takeN {α : Type} : Nat → List α → Option (List α × List α)
+  | 0, l => some ([], l)
+  | n + 1, x :: l => do let (a, b) ← takeN n l; pure (x :: a, b)
+  | _, [] => none
+
+/-- the ops of a `tokcol.run` line in order: `W session col value ncands cand…` (a value written through the
+statement encryptor of the proxy) and `R session col data` (a column of a data row read back) -/
+def runColOps (src : IdSource) (cols : List (String × Option ColSetting)) : Nat → TokStore → List String → Option (List String)
+  | 0, _, [] => some []
+  | n + 1, st, "W" :: session :: col :: value :: ncands :: rest => do
+    let session ← ofHex session
+    let v ← ofHex value
+    let (cs, rest) ← takeN (← ncands.toNat?) rest
+    let cands ← cs.mapM ofHex
+    let setting := (cols.find? (·.1 == col)).bind (·.2)
+    match setting with
+    | none => do pure (hexOf v :: (← runColOps src cols n st rest))
+    | some s =>
+      match proxyWrite C src st session s v cands with
+      | .ok (st', tok) => do pure (hexOf tok :: (← runColOps src cols n st' rest))
+      | _ => do pure ("err" :: (← runColOps src cols n st rest))
+  | n + 1, st, "R" :: session :: col :: data :: rest => do
+    let setting := (cols.find? (·.1 == col)).bind (·.2)
+    let out := match onColumnToken C st (← ofHex session) setting (← ofHex data) with
+      | .ok b => hexOf b
+      | .err => "err"
+      | .panic => "panic"
+    pure (out :: (← runColOps src cols n st rest))
+  | _, _, _ => none
+
 def handle (op : String) (args : List String) : Option String :=
   match op, args with
+  -- tokcol.run dialect ncols (name cid ty consistent)×ncols nops ops… : values written through the statement
+  -- encryptor of a proxy and columns read back, one token storage
+  | "tokcol.run", dialect :: ncols :: rest => do
+      let (cols, rest) ← parseCols (← ncols.toNat?) rest
+      match rest with
+      | nops :: rest => do
+        let site ← (match dialect with | "pg" => some pgWriteSite | "my" => some myWriteSite | _ => none)
+        let outs ← runColOps (writeSourceOf site) cols (← nops.toNat?) [] rest
+        pure (if outs.isEmpty then "_" else ",".intercalate outs)
+      | _ => none
   -- tlsid.seq mode n (cert | nil)×n : one long-lived extractor, the certificates in order
   | "tlsid.seq", mode :: n :: rest => do
       let (cs, tail) ← parseCerts (← n.toNat?) rest
